@@ -83,6 +83,16 @@ def run (w : World) (toks : List String) : World × String :=
     match parseNat? p, parseNat? q with
     | some p, some q => (shareGrad w p q, "ok")
     | _, _ => (w, "bad-op")
+  | ["pwrap", p] =>
+    match parseNat? p with
+    | some p => match wrapPar w p with
+      | (w, some k) => (w, s!"p{k}")
+      | (w, none) => (w, "bad-op")
+    | none => (w, "bad-op")
+  | ["psetrg", p, v] =>
+    match parseNat? p, parseBool? v with
+    | some p, some v => (setParReqGrad w p v, "ok")
+    | _, _ => (w, "bad-op")
   | ["grads"] => (w, showList (fun P => match P.gval with | some v => toString v | none => "-") w.pars)
   | ["pflags"] => (w, showList (fun P => showBool P.reqGrad ++ showBool P.hasGrad) w.pars)
   | _ => (w, "bad-op")
